@@ -674,10 +674,17 @@ static void runOp(const std::vector<std::string> &w)
 		if (!slotArg(w[1], slot)) { out += " rv=noslot"; return; }
 		CK_ULONG n = 0;
 		rv = F->C_GetMechanismList(slot, NULL, &n);
-		std::vector<CK_MECHANISM_TYPE> ms(n + 1);
+		// count-then-fetch: a buffer of exactly the announced count, followed by canaries
+		const CK_MECHANISM_TYPE CAN = (CK_MECHANISM_TYPE)0xA5A5A5A5A5A5A5A5UL;
+		CK_ULONG n0 = n;
+		std::vector<CK_MECHANISM_TYPE> ms(n + 64, CAN);
 		if (rv == CKR_OK) rv = F->C_GetMechanismList(slot, &ms[0], &n);
 		rvOut(rv);
-		if (rv == CKR_OK) { std::sort(ms.begin(), ms.begin() + n); out += " mechs="; for (CK_ULONG i = 0; i < n; i++) { char b[32]; snprintf(b, sizeof b, "%s0x%lx", i ? "," : "", (unsigned long)ms[i]); out += b; } }
+		bool over = false;
+		for (CK_ULONG i = n0; i < n0 + 64; i++) if (ms[i] != CAN) over = true;
+		if (over) out += " ovw=1";
+		if (rv == CKR_OK && n != n0) { kv("count_first", n0); kv("count_second", n); }
+		if (rv == CKR_OK && n <= n0) { std::sort(ms.begin(), ms.begin() + n); out += " mechs="; for (CK_ULONG i = 0; i < n; i++) { char b[32]; snprintf(b, sizeof b, "%s0x%lx", i ? "," : "", (unsigned long)ms[i]); out += b; } }
 	}
 	else if (op == "mechinfo") {
 		CK_SLOT_ID slot;
